@@ -98,6 +98,9 @@ class UnitSpec:
         self.macro_replacements = {}  # macro path -> replacement expr (R5)
         self.delete_stmt_macros = set()  # macro paths whose statement invocations are deleted (R5)
         self.fn_tag_rules = []  # (regex on "file:path", tags) default tags for uncontracted fns
+        self.extra_files = []   # (path relative to crate_root, module name): extra modules at crate root
+        self.generators = []    # callables(splicer) run once the anchors are loaded; may add appendix text
+        self.hoist_nested_consts = False  # R10: fn-local const items are hoisted in front of their fn
         self.reveal_strlits = False  # auto-insert reveal_strlit("..") for string literals (R8)
         self.scope_listed = False  # True: functions without an entry get #[verifier::external]
         self.extra_uses = 'use vstd::prelude::*;\n#[allow(unused_imports)] use crate::prelude::*;\n'
@@ -139,6 +142,7 @@ class Generated:
         self.panic_sites = 0
         self.dropped = []
         self.files = {}       # file -> source bytes
+        self.inserted = {}    # name of an inserted (generated) fn -> dict(tags, finding, desc)
 
     def count(self, rule, n=1):
         self.rewrites[rule] = self.rewrites.get(rule, 0) + n
@@ -213,7 +217,7 @@ class Splicer:
 
     def discover(self):
         """Find all files of the unit starting at the root file (mod x; declarations)."""
-        todo = [self.u.root_file]
+        todo = [self.u.root_file] + [f for (f, _) in self.u.extra_files]
         seen = []
         while todo:
             f = todo.pop(0)
@@ -305,7 +309,7 @@ class Splicer:
                 self.g.count('R10')
                 continue
             for (df, kind, name_re, rule, why) in self.u.drop_items:
-                if df == f and kind == r['kind'] and re.fullmatch(name_re, r['name']):
+                if df == f and kind == r['kind'] and re.fullmatch(name_re, r['name'], re.S):
                     dele(s, e, rule)
                     self.g.dropped.append('%s: %s %s (%s)' % (f, kind, r['name'], why))
                     break
@@ -382,6 +386,14 @@ class Splicer:
             self.g.dropped.append('%s (function dropped: %s)' % (fnkey, fc.drop))
             info['dropped'] = True
             return
+        if u.hoist_nested_consts:
+            for cst in r.get('consts', []):
+                txt = data[cst['span'][0]:cst['span'][1]].decode()
+                ty = data[cst['ty'][0]:cst['ty'][1]].decode()
+                ty2 = re.sub(r"&\s*str", "&'static str", ty)
+                txt2 = 'pub ' + txt.replace(ty, ty2, 1)
+                dele(cst['span'][0], cst['span'][1], 'R10', '/* const %s hoisted */' % cst['name'])
+                ins(self.toplevel_start(f, r['item'][0]), txt2 + '\n', {'rule': 'R10'})
         for a in fc.attrs:
             ins(r['item'][0], '#[verifier::%s]\n' % a, {'rule': 'R9'})
             if a in ('external_body', 'external'):
@@ -423,6 +435,14 @@ class Splicer:
         if r['body'] and 'external_body' not in fc.attrs and 'external' not in fc.attrs:
             self.rewrite_body(f, r, data, ins, dele, fc)
         self.fn_range_marks(f, r, ins, fnkey)
+
+    def toplevel_start(self, f, off):
+        """start of the outermost item of file f that contains byte offset off"""
+        best = off
+        for it in self.anch[f]:
+            if it['rec'] == 'item' and it['span'][0] <= off < it['span'][1] and it['span'][0] < best:
+                best = it['span'][0]
+        return best
 
     def fn_range_marks(self, f, r, ins, fnkey):
         # zero-width marks used to compute the generated range of a function
@@ -543,6 +563,15 @@ class Splicer:
                 for mm in ms:
                     ins(b0 + len(txt[:mm.start()].encode()), text + ' ', {'rule': 'R8'})
                     self.g.count('R8')
+            for (rx, text, wtags, wname) in getattr(fc, 'wrap_exprs', []):
+                ms = list(re.finditer(rx, txt))
+                if not ms:
+                    raise ExtractError('lost anchor: expression %r in %s' % (rx, fnkey))
+                for mm in ms:
+                    m = self.marker('assert', fnkey, f, 0, set(wtags.split()), Clause(text, wtags, name=wname))
+                    ins(b0 + len(txt[:mm.start()].encode()), '{ ' + text + ' /*@' + m + '*/ ', {'rule': 'R8'})
+                    ins(b0 + len(txt[:mm.end()].encode()), ' }', {'rule': 'R8'})
+                    self.g.count('R8')
             # R11: alpha renaming of binders
             for old, new in fc.rename.items():
                 n = 0
@@ -564,7 +593,14 @@ class Splicer:
         g = self.g
         self.hoisted = []
         self.discover()
+        for gen_fn in u.generators:
+            gen_fn(self)
         root_pieces = self.process_file(u.root_file)
+        for (xf, modname) in u.extra_files:
+            sub = self.process_file(xf)
+            root_pieces.append(('ins', '\npub mod %s {\n' % modname + u.extra_uses + u.header.get(xf, ''), {'glue': 'extra mod open ' + xf}))
+            root_pieces += sub
+            root_pieces.append(('ins', u.appendix.get(xf, '') + '\n}\n', {'glue': 'extra mod close ' + xf}))
         unused = [k for k, v in u.fns.items() if not v.used]
         if unused:
             raise ExtractError('lost anchor: contracted function(s) not found in the source: ' +
